@@ -8,6 +8,7 @@ import (
 	"encoding/binary"
 	"fmt"
 	"sort"
+	"strconv"
 	"strings"
 	"time"
 
@@ -35,6 +36,7 @@ type Exec struct {
 	canonIDs           bool
 	idBase             uint32
 	idKnown            bool
+	stalled            bool      // the harness itself was not scheduled for a long time during an operation: the trace clock is not faithful any more, the rest of the scenario is not judged
 	obsEnd, prevObsEnd time.Time // when the observation of the last / the previous operation was complete: an operation starts no earlier than the previous one's observation ended
 	nsent              int
 	lastTx             []vp.TxRec // transmissions of the last observation, in the order they are listed
@@ -60,6 +62,10 @@ func NewExec(c *Ctx, tag string, proto mangos.ProtocolBase, newArgs string) *Exe
 }
 
 func (e *Exec) emit(lhs, obs string) {
+	if e.stalled {
+		e.ops = append(e.ops, lhs+" => -")
+		return
+	}
 	if e.timed {
 		lhs = fmt.Sprintf("%s @%d", lhs, time.Since(e.t0).Milliseconds())
 	}
@@ -192,17 +198,48 @@ func (e *Exec) InjectCanon(id int, body []byte) {
 	e.Op(fmt.Sprintf("inject %d %s", id, vp.Hex(body)), func() { p.Inject(real) })
 }
 
+// stallCheck: a timed scenario compares what happened with the clock of its trace lines.  When an operation takes much
+// longer than it can (the process was not scheduled: an overloaded or suspended machine), timers fire in bursts and
+// late, several per observation, and neither the model's windows nor the oracles' bookkeeping mean anything; the rest
+// of the scenario is then driven to its end but not judged (counted as class "harness stalled").
+func (e *Exec) stallCheck(lhs string, t0 time.Time) bool {
+	if !e.timed || e.stalled {
+		return e.stalled
+	}
+	nominal := time.Duration(0)
+	if f := strings.Fields(lhs); len(f) == 2 && f[0] == "sleep" {
+		if ms, err := strconv.Atoi(f[1]); err == nil {
+			nominal = time.Duration(ms) * time.Millisecond
+		}
+	}
+	if d := time.Since(t0); d > nominal+200*time.Millisecond {
+		e.stalled, e.broken = true, true
+		e.c.Class("trivial:harness stalled during a timed scenario", false)
+		e.c.Rep.Notes = append(e.c.Rep.Notes, fmt.Sprintf("%s: operation %q took %v (nominal %v): the rest of the scenario was not judged", e.tag, lhs, d.Round(time.Millisecond), nominal))
+	}
+	return e.stalled
+}
+
 func (e *Exec) Op(lhs string, f func()) string {
+	t0 := time.Now()
 	f()
 	obs := e.observe()
+	if e.stallCheck(lhs, t0) {
+		obs = "-"
+	}
 	e.emit(lhs, obs)
 	return obs
 }
 
 // OpSync runs a synchronous API call; its result is the first event of the observation ("res:<err>")
 func (e *Exec) OpSync(lhs string, f func() error) string {
+	t0 := time.Now()
 	err := f()
 	obs := e.observe()
+	if e.stallCheck(lhs, t0) {
+		e.emit(lhs, "-")
+		return vp.ErrName(err)
+	}
 	r := "res:" + vp.ErrName(err)
 	if obs == "-" {
 		obs = r
@@ -381,5 +418,5 @@ func (e *Exec) ParkedRecvs() int {
 }
 
 func (e *Exec) Replay() map[string]interface{} {
-	return map[string]interface{}{"machine": e.tag, "ops": append([]string{}, e.ops...)}
+	return map[string]interface{}{"machine": e.tag, "ops": append([]string{}, e.ops...), "stalled": e.stalled}
 }
